@@ -100,6 +100,11 @@ for _op in c17.OPS:
                covers=['ok'], opts={'lazy_forks': True} if _route else {},
                replay=_replay(_op))(_ob_inv(_op))
 
+
+# ---------------------------------------------------------------- routed swaps incl. routes that revisit a pool (the hop-chaining obligations of C04, shared)
+from . import c04 as _c04r   # noqa: E402
+share('C04', 'C01', 'R', lambda n: n.startswith('R1.route_hops_'))
+
 from . import lockdep   # noqa: E402,F401  (locked deposits: LP goes to the farm manager, reserves stay backed)
 
 from . import stable3   # noqa: E402,F401  (three-asset stableswap accounting obligations registered for this property)
